@@ -1233,8 +1233,8 @@ def rule_t13(prog, rep, rid='T13', unit=None, node=None, primary=('root',)):
 
     def node_typed(e):
         t = (qtype(strip(e)) or '')
-        if not t.rstrip().endswith('*'):
-            return False
+        if not t.rstrip().endswith('*') or t.count('*') != 1:
+            return False                 # a node pointer, not an array of them
         return u.resolve_typedef(t.replace('*', '').replace('const', '').replace('struct', '').strip())[0] == NODE_
     # functions that may free a node
     def fresh_locals(f):
